@@ -113,9 +113,8 @@ def handle (j : Json) : Json :=
     | [k, v] => (nat! k, str! v) | _ => (0, "")
   let lj := fld j "legacy"
   let L : Legacy := { modeStringReturns := bool! (fld lj "mode_string_returns")
-                      depsByKey := bool! (fld lj "deps_by_key")
                       predSkipsMode := bool! (fld lj "pred_skips_mode") }
-  let P := mkParser W L.depsByKey c
+  let P := mkParser W c
   let o := (runtime.getD c.opts).normalise
   let run (st : St V) := outcomeJ P o (finish L W P o { st with errs := paramsCheck o data.length ++ st.errs })
   let legacyStrategies := bool! (fld lj "strategies")
